@@ -101,7 +101,8 @@ fn gen_boundary(rng: &mut Rng, parts: &[FormPart]) -> String {
 }
 
 fn gen_content(rng: &mut Rng) -> (Vec<u8>, &'static str) {
-    match rng.below(12) {
+    match rng.below(13) {
+        12 => { let n = *rng.pick(&[8_192usize, 8_193, 9_000, 20_000, 65_536, 70_000]); (rng.bytes(n), "large") }
         0 => (vec![], "empty"),
         1 => (b"line1\r\nline2".to_vec(), "crlf-inside"),
         2 => (b"ends with cr\r".to_vec(), "ends-cr"),
